@@ -71,6 +71,8 @@ func Lookalikes(level int) []*tv.Package {
 	add("struct/unkeyed-literal", "func FN(x uint64) uint64 {\n\tp := Pt{x, 2}\n\treturn p.X + p.Y\n}")
 	add("struct/compare", "func FN(p Pt, q Pt) bool {\n\treturn p == q\n}")
 	add("struct/anonymous", "func FN(x uint64) uint64 {\n\ts := struct{ A uint64 }{A: x}\n\treturn s.A\n}")
+	add("ptr/addr-of-param", "func FN(x uint64) uint64 {\n\tq := &x\n\t*q = 5\n\treturn x\n}")
+	add("ptr/addr-of-defined", "func FN(x uint64) uint64 {\n\tn := x + 1\n\tq := &n\n\t*q = *q + 1\n\treturn n\n}")
 	add("struct/addr-of-nonvar", "func FN(x uint64) uint64 {\n\tp := Pt{X: x}\n\tq := &p\n\tq.X = 5\n\treturn p.X\n}")
 	add("struct/ptr-compare", "func FN(p *Pt, q *Pt) bool {\n\treturn p == q\n}")
 	add("string/index", "func FN(s string) byte {\n\tif uint64(len(s)) == 0 {\n\t\treturn 0\n\t}\n\treturn s[0]\n}")
@@ -81,6 +83,14 @@ func Lookalikes(level int) []*tv.Package {
 	add("string/newline-literal", "func FN() string {\n\treturn \"a\\nb\"\n}")
 	add("string/copy-into-bytes", "func FN(s string) uint64 {\n\tb := make([]byte, 2)\n\treturn uint64(copy(b, s))\n}")
 	add("int/signed", "func FN(x int) int {\n\treturn x - 1\n}")
+	add("int/signed-compare", "func FN(x uint64, y uint64) bool {\n\treturn int(x) < int(y)\n}")
+	add("int/len-minus-one-compare", "func FN(a []uint64) bool {\n\treturn len(a)-1 < 0\n}")
+	add("int/signed-div", "func FN(x uint64) uint64 {\n\treturn uint64(int(x) / 2)\n}")
+	add("int/signed-rem", "func FN(x uint64) uint64 {\n\treturn uint64(int(x) % 3)\n}")
+	add("int/signed-shr", "func FN(x uint64) uint64 {\n\treturn uint64(int(x) >> 1)\n}")
+	add("int/countdown-loop", "func FN(a []uint64) uint64 {\n\tvar s uint64 = 0\n\tfor i := len(a) - 1; i >= 0; i-- {\n\t\ts += a[i]\n\t}\n\treturn s\n}")
+	add("int/signed-local", "func FN(x uint64) bool {\n\tvar d int = int(x) - 10\n\treturn d > 0\n}")
+	add("int/newtype-width-conv", "type FNT uint32\n\nfunc FN(a []byte) bool {\n\treturn FNT(len(a)) == FNT(2)\n}")
 	add("int/int64", "func FN(x int64) int64 {\n\treturn x / 2\n}")
 	add("int/uint16", "func FN(x uint16) uint16 {\n\treturn x + 1\n}")
 	add("int/uint8-spelling", "func FN(x uint8) uint8 {\n\treturn x + 1\n}")
